@@ -957,6 +957,9 @@ class Interp:
         if isinstance(v, FuncObj):
             if name == "__name__":
                 return v.name
+        if v is None or isinstance(v, (bool, int, float, SInt, SBool)):
+            tn = "NoneType" if v is None else ("bool" if isinstance(v, (bool, SBool)) else ("float" if isinstance(v, float) else "int"))
+            self.raise_("AttributeError", f"'{tn}' object has no attribute '{name}'")
         raise Unsupported(f"getattr({v!r}, {name})")
 
     def setattr(self, v, name, val):
